@@ -26,7 +26,12 @@ EDGE_DOCS = ['<svg xmlns="https://www.w3.org/2000/svg"><rect xy="1 2" wh="4 2" t
              "<?xml version=\"1.0\"?>\n<svg><rect wh=\"1\" text=\"a\"/></svg>\n", "<svg><svg><rect wh=\"1\"/></svg></svg>",
              "<svg width=\"10cm\"><rect wh=\"4 2\"/></svg>", "<svg viewBox=\"0 0 1 1\" height=\"50%\"><rect wh=\"4 2\"/></svg>",
              "<svg><text>plain</text></svg>", "<svg>text &amp; more<rect wh=\"1\"/>tail &lt;</svg>",
-             "<svg><style>rect { fill: red; }</style><rect wh=\"1\"/></svg>", "<svg><rect wh=\"3\" text=\"a\\nb\\n\\nc\" class=\"d-text-pre\"/></svg>"]
+             "<svg><style>rect { fill: red; }</style><rect wh=\"1\"/></svg>", "<svg><rect wh=\"3\" text=\"a\\nb\\n\\nc\" class=\"d-text-pre\"/></svg>",
+             # character data between elements given as CDATA (a 'tail' of the preceding tag), with and without white space after it
+             "<svg><rect xy=\"0\" wh=\"20\"/><![CDATA[if a <b && c > d]]><circle cx=\"40\" cy=\"10\" r=\"5\"/></svg>",
+             "<svg><rect xy=\"0\" wh=\"20\"/><![CDATA[x<y]]></svg>", "<svg><g><rect wh=\"2\"/><![CDATA[</g> & <g>]]></g><rect wh=\"1\"/></svg>",
+             "<svg><rect wh=\"2\"/><![CDATA[a<b]]>\n  <rect wh=\"1\"/></svg>", "<svg><![CDATA[<lead>]]><rect wh=\"2\"/></svg>",
+             "<rect wh=\"2\"/><![CDATA[1 < 2 &amp; 3]]><rect wh=\"1\"/>", "<svg><rect wh=\"2\"/>t<![CDATA[<]]>u<rect wh=\"1\"/></svg>"]
 
 
 def diff_class(a, b):
